@@ -191,6 +191,9 @@ def run(ctx):
                 "negative r": bytes([0x30, len(good) - 2]) + bytes([2, good[3], good[4] | 0x80]) + good[5:] if good[4] < 0x80 and good[4] != 0 else None,
                 "empty": b"",
                 "truncated": good[:-1],
+                # the sign octet 00 in front of an r (s) whose top bit is set taken away: DER then reads a negative number
+                "r without its sign octet": (bytes([0x30, len(good) - 3, 2, good[3] - 1]) + good[5:]) if good[4] == 0 else None,
+                "s without its sign octet": (bytes([0x30, len(good) - 3]) + good[2:4 + good[3]] + bytes([2, good[5 + good[3]] - 1]) + good[7 + good[3]:]) if good[6 + good[3]] == 0 else None,
                 # the numbers in other containers than SEQUENCE { INTEGER, INTEGER }: fixed-width r || s (64 bytes, the format of
                 # hardware modules), the same behind a 04 prefix, two bare INTEGERs without the SEQUENCE, an OCTET STRING pair
                 "raw r || s (64 bytes)": r.to_bytes(32, "big") + s.to_bytes(32, "big"),
